@@ -35,39 +35,41 @@ sexp sexp_json_write_exception (sexp ctx, sexp self, const char* msg, sexp obj) 
 }
 
 sexp json_read_number (sexp ctx, sexp self, sexp in) {
-  double res = 0, scale = 1;
-  int sign = 1, inexactp = 0, scale_sign = 1, ch;
+  /* collect the token and convert it in one step: correctly rounded, */
+  /* with fraction and exponent in any combination (1.5e3, 1E+10) */
+  char buf[128];
+  int i = 0, inexactp = 0, ch;
+  double res;
   ch = sexp_read_char(ctx, in);
-  if (ch == '+') {
+  if (ch == '+' || ch == '-') {
+    if (ch == '-') buf[i++] = ch;
     ch = sexp_read_char(ctx, in);
-  } else if (ch == '-') {
-    ch = sexp_read_char(ctx, in);
-    sign = -1;
   }
   for ( ; ch != EOF && isdigit(ch); ch = sexp_read_char(ctx, in))
-    res = res * 10 + ch - '0';
+    if (i < 100) buf[i++] = ch;
   if (ch == '.') {
     inexactp = 1;
-    for (ch = sexp_read_char(ctx, in); isdigit(ch); scale *= 10, ch = sexp_read_char(ctx, in))
-      res = res * 10 + ch - '0';
-    res /= scale;
-  } else if (ch == 'e') {
-    inexactp = 1;
-    ch = sexp_read_char(ctx, in);
-    if (ch == '+') {
-      ch = sexp_read_char(ctx, in);
-    } else if (ch == '-') {
-      ch = sexp_read_char(ctx, in);
-      scale_sign = -1;
-    }
-    for (scale=0; isdigit(ch); ch = sexp_read_char(ctx, in))
-      scale = scale * 10 + ch - '0';
-    res *= pow(10.0, scale_sign * scale);
+    if (i < 100) buf[i++] = ch;
+    for (ch = sexp_read_char(ctx, in); ch != EOF && isdigit(ch); ch = sexp_read_char(ctx, in))
+      if (i < 100) buf[i++] = ch;
   }
+  if (ch == 'e' || ch == 'E') {
+    inexactp = 1;
+    if (i < 110) buf[i++] = 'e';
+    ch = sexp_read_char(ctx, in);
+    if (ch == '+' || ch == '-') {
+      if (ch == '-' && i < 110) buf[i++] = ch;
+      ch = sexp_read_char(ctx, in);
+    }
+    for ( ; ch != EOF && isdigit(ch); ch = sexp_read_char(ctx, in))
+      if (i < 120) buf[i++] = ch;
+  }
+  buf[i] = '\0';
   if (ch != EOF) sexp_push_char(ctx, ch, in);
-  return (inexactp || fabs(res) > SEXP_MAX_FIXNUM) ?
-    sexp_make_flonum(ctx, sign * res) :
-    sexp_make_fixnum(sign * res);  /* always return inexact? */
+  res = strtod(buf, NULL);
+  return (inexactp || fabs(res) >= -(double)SEXP_MIN_FIXNUM) ?
+    sexp_make_flonum(ctx, res) :
+    sexp_make_fixnum(strtoll(buf, NULL, 10));  /* always return inexact? */
 }
 
 sexp json_read_literal (sexp ctx, sexp self, sexp in, char* name, sexp value) {
@@ -331,7 +333,7 @@ sexp sexp_json_read (sexp ctx, sexp self, sexp_sint_t n, sexp in) {
 
 sexp json_write (sexp ctx, sexp self, sexp obj, sexp out);
 
-#define FLONUM_SIGNIFICANT_DIGITS 10
+#define FLONUM_SIGNIFICANT_DIGITS 17
 #define FLONUM_EXP_MAX_DIGITS 3
 sexp json_write_flonum(sexp ctx, sexp self, const sexp obj, sexp out) {
   if (sexp_infp(obj) || sexp_nanp(obj)) {
